@@ -108,7 +108,7 @@ def loadTags (cfg : Cfg) : St → List Op → List String
     match o with
     | .adv d => loadTags cfg { st with now := st.now + d } os
     | .req q =>
-      let p := presentedId cfg q
+      let p := presentedId cfg q.pres
       let t := match st.get p with
         | some blob => if absExpired st.now blob then ["nt-load-abs-expired"] else ["load-live"]
         | none => if p = [] then ["load-none"] else if (lookup st.store p).isSome then ["load-idle-expired"] else ["load-unknown-id"]
@@ -171,6 +171,7 @@ def opTags (ops : List Op) : List String :=
   (if reqs.any (·.viaMw) then ["mw"] else []) ++ (if reqs.any (!·.viaMw) then ["store-api"] else []) ++
   (if has (· == .destroy) then ["destroy"] else []) ++ (if has (· == .regenerate) then ["regenerate"] else []) ++
   (if has (· == .reset) then ["reset"] else []) ++
+  (if reqs.any (fun q => !q.viaMw && (q.script.filter (· == .storeGet)).length ≥ 2) then ["nt-multi-get"] else []) ++
   (if ops.any (fun o => match o with | .adv _ => true | _ => false) then ["advance"] else [])
 
 /-! ### schedules (overlapping requests): ops `b:<rid>:…`, `s:<rid>`, `e:<rid>`, `a:<secs>` -/
@@ -230,7 +231,11 @@ def scheduleTags (evs : List Ev) : List String :=
     | .finish rid => (acc.1.filter (·.1 != rid), acc.2.1, acc.2.2)
     | _ => acc
   let r := evs.foldl step ([], 0, false)
+  let multi := evs.any fun e => match e with
+    | .start _ q => !q.viaMw && (q.script.filter (· == .storeGet)).length ≥ 2
+    | _ => false
   ["schedule", s!"inflight-{r.2.1}"] ++ (if r.2.1 ≥ 2 then ["nt-overlap"] else []) ++
+    (if multi then ["nt-multi-get"] else []) ++
     (if r.2.2 then ["nt-overlap-same-id"] else [])
 
 def handleSchedule (id src sto : String) (cfg : Cfg) (absT : Nat) (ops impl : String) : Except String Verdict := do
